@@ -9,6 +9,7 @@ Lifted verbatim: tables and lexical structure that *are* data –
   IterMethod members, DiffClassification members  (C06, C11)
   Mermaid edge/node templates                     (C17)
   lock skeletons of the snapshot operations       (C18)
+  literal keys of Node.to_dict / Node.from_dict, shape of the data_id test (C14)
 """
 from __future__ import annotations
 
@@ -302,6 +303,46 @@ def main():
     is_rlock = (len(rl) == 1 and isinstance(rl[0].value, ast.Call) and isinstance(rl[0].value.func, ast.Attribute)
                 and rl[0].value.func.attr == "RLock")
     lines.append(f"Definition LOCK_IS_RLOCK : bool := {'true' if is_rlock else 'false'}.")
+
+    # --- C14: literal keys of the dict form (Node.to_dict / Node.from_dict) and the data_id test
+    node_mod = parse("node.py")
+    ncls = class_def(node_mod, "Node")
+    td = func_def(ncls, "to_dict")
+    found = []
+    for n in ast.walk(td):
+        if isinstance(n, ast.Dict) and n.keys and all(isinstance(k, ast.Constant) and isinstance(k.value, str) for k in n.keys):
+            for k in n.keys:
+                found.append((k.lineno, k.col_offset, k.value))
+        if (isinstance(n, ast.Subscript) and isinstance(n.ctx, ast.Store) and isinstance(n.value, ast.Name) and n.value.id == "res"):
+            found.append((n.lineno, n.col_offset, const_str(n.slice)))
+    if not found:
+        raise Unsupported("Node.to_dict: no literal keys found")
+    lines.append("Definition TO_DICT_KEYS : list (list Z) := [" + "; ".join(text(k) for _, _, k in sorted(found)) + "].")
+    id_ok = False
+    for n in ast.walk(td):
+        if isinstance(n, ast.If) and any(isinstance(b, ast.Assign) and isinstance(b.targets[0], ast.Subscript)
+                                         and isinstance(b.targets[0].slice, ast.Constant) and b.targets[0].slice.value == "data_id"
+                                         for b in n.body):
+            t = n.test
+            id_ok = (isinstance(t, ast.Compare) and len(t.ops) == 1 and isinstance(t.ops[0], ast.NotEq)
+                     and isinstance(t.left, ast.Attribute) and t.left.attr == "_data_id"
+                     and isinstance(t.left.value, ast.Name) and t.left.value.id == "self"
+                     and len(t.comparators) == 1 and isinstance(t.comparators[0], ast.Call)
+                     and isinstance(t.comparators[0].func, ast.Name) and t.comparators[0].func.id == "hash"
+                     and len(t.comparators[0].args) == 1 and isinstance(t.comparators[0].args[0], ast.Attribute)
+                     and t.comparators[0].args[0].attr == "_data")
+    lines.append(f"Definition TO_DICT_ID_TEST_IS_NE_HASH : bool := {'true' if id_ok else 'false'}.")
+    fdn = func_def(ncls, "from_dict")
+    found = []
+    for n in ast.walk(fdn):
+        if (isinstance(n, ast.Subscript) and isinstance(n.ctx, ast.Load) and isinstance(n.value, ast.Name) and n.value.id == "item"):
+            found.append((n.lineno, n.col_offset, const_str(n.slice)))
+        if (isinstance(n, ast.Call) and isinstance(n.func, ast.Attribute) and n.func.attr == "get"
+                and isinstance(n.func.value, ast.Name) and n.func.value.id == "item" and len(n.args) == 1):
+            found.append((n.lineno, n.col_offset, const_str(n.args[0])))
+    if not found:
+        raise Unsupported("Node.from_dict: no literal keys found")
+    lines.append("Definition FROM_DICT_KEYS : list (list Z) := [" + "; ".join(text(k) for _, _, k in sorted(found)) + "].")
 
     new = "\n".join(lines) + "\n"
     OUT.parent.mkdir(parents=True, exist_ok=True)
